@@ -127,6 +127,13 @@ package native
 //@   modifies *ep, rawmem(dp)
 //@   ensures result <= nb && -64 <= result
 
+// get_by_path: like skip_one, the located value lies inside the input.
+//@ func GetByPath assumed "native get_by_path (pre-assembled machine code)"
+//@   requires s != nil && p != nil && 0 <= *p && *p <= len(*s)
+//@   modifies *p
+//@   ensures result >= 0 ==> (result < *p && *p <= len(*s))
+//@   ensures result < 0 ==> (0 <= *p && *p <= len(*s) + 4 && -64 <= result)
+
 // ---- dispatch wiring (C13): each slot of the function-pointer table is filled
 // with the same-named routine of ONE instruction-set package; both variants fill
 // the same set of slots; init selects by CPU feature.
